@@ -6,6 +6,7 @@ CONSTANTS
   MaxElems = 2
   RefMax = 2
   MaxOutputs = 1
+INVARIANT ValidImpliesSafe
 INVARIANT ModelTotal
 INVARIANT Emit
 CHECK_DEADLOCK FALSE
